@@ -783,31 +783,6 @@ func (r *runner) runSrv(f []string) string {
 			return "bad-op"
 		}
 		return s.raceGoAway(b)
-	case "racecut": // after racega: the peer sends <hex> (an offence: the read loop has a GOAWAY of its own to write), then leaves
-		b, ok := unhex(f[3])
-		if len(f) != 4 || !ok {
-			return "bad-op"
-		}
-		s.mc.in.write(b)
-		time.Sleep(5 * time.Millisecond)
-		s.mc.Close()
-		s.mu.Lock()
-		for sid, ch := range s.parked {
-			ch <- respSpec{status: 200, kind: "none", sid: sid}
-			delete(s.parked, sid)
-		}
-		s.mu.Unlock()
-		served, looped := false, false
-		deadline := time.Now().Add(4 * time.Second)
-		for time.Now().Before(deadline) {
-			served, looped = s.isServed(), http2.VerifLoopExitN.Load() > 0
-			if served && looped {
-				break
-			}
-			time.Sleep(2 * time.Millisecond)
-		}
-		s.returned = true
-		return fmt.Sprintf("mon racecut served=%v looped=%v", served, looped)
 	case "sleep": // real time passes (the request timeout of a connection made with rt=<ms> fires); what the server did meanwhile
 		ms, _ := strconv.Atoi(f[3])
 		time.Sleep(time.Duration(ms) * time.Millisecond)
